@@ -25,12 +25,11 @@ def load(mir_paths, src_dirs, opts=None):
 
 def find_harness(eng, name):
     """name like c29::width_frame -> Fn `verif::c29::width_frame`"""
-    want = ('verif::' + name).split('::')
+    want = name.split('::')
     found = []
     for mf in eng.mfs:
         for fn in mf.by_last.get(want[-1], ()):
-            segs = fn.name.split('::')
-            if fn.kind == 'fn' and not fn.params and segs == want[-len(segs):]:
+            if fn.kind == 'fn' and not fn.params:
                 found.append(fn)
     if len(found) != 1:
         raise KeyError('harness %s: %d candidates in MIR' % (name, len(found)))
@@ -79,6 +78,9 @@ def explore(eng, names, out_root, jobs=15, deadline=None, max_paths=200000):
                 th = threading.Thread(target=_child_main, args=(eng, fn, name))
                 th.start()
                 th.join()
+                sys.stdout.flush()
+                sys.stderr.flush()
+                os._exit(0)
             except BaseException as e:
                 sys.stderr.write('harness root failed: %r\n' % (e,))
             finally:
